@@ -153,8 +153,25 @@ def _canon_sign(d: Affine) -> Affine:
     return d
 
 
+def _len_arg(e: ast.AST):
+    if isinstance(e, ast.Call) and isinstance(e.func, ast.Name) and e.func.id == "len" and len(e.args) == 1 and not e.keywords:
+        return e.args[0]
+    return None
+
+
 def compare_atom(left: ast.AST, op: ast.cmpop, right: ast.AST, env=None) -> Atom:
     t = type(op)
+    # emptiness tests are spelled in many ways: len(x) > 0, len(x) != 0, len(x) >= 1, 0 < len(x)  ==  `x` (non-empty);
+    # len(x) == 0, len(x) < 1, len(x) <= 0  ==  `not x`
+    for a, b, flip in ((left, right, False), (right, left, True)):
+        x = _len_arg(a)
+        if x is not None and isinstance(b, ast.Constant) and isinstance(b.value, int) and not isinstance(b.value, bool):
+            tt = {ast.Lt: ast.Gt, ast.Gt: ast.Lt, ast.LtE: ast.GtE, ast.GtE: ast.LtE}.get(t, t) if flip else t
+            k = b.value
+            nonempty = (tt is ast.Gt and k == 0) or (tt is ast.NotEq and k == 0) or (tt is ast.GtE and k == 1)
+            empty = (tt is ast.Eq and k == 0) or (tt is ast.Lt and k == 1) or (tt is ast.LtE and k == 0)
+            if nonempty or empty:
+                return Atom(None, "true" if nonempty else "false", sym(x))
     if t in (ast.Lt, ast.LtE, ast.Gt, ast.GtE, ast.Eq, ast.NotEq):
         d = aff_add(affine(left, env), affine(right, env), -1)  # left - right OP 0
         if t is ast.Gt:
